@@ -7,6 +7,7 @@
 mod c01;
 mod c03;
 mod c05;
+mod c08;
 mod c17;
 mod common;
 
@@ -67,6 +68,7 @@ fn main() {
             "C05" => c05::run(ctx, c05::Mode::C05),
             "C06" => c05::run(ctx, c05::Mode::C06),
             "C07" => c05::run(ctx, c05::Mode::C07),
+            "C08" => c08::run(ctx),
             "C03" => c03::run(ctx, c03::Mode::C03),
             "C16" => c03::run(ctx, c03::Mode::C16),
             "C17" => c17::run(ctx),
